@@ -43,7 +43,8 @@ func verif_C02_resume() {
 	be := &vbackend{lmtpSession: mode == 2}
 	s, _ := verifServer(be)
 	s.LMTP = mode != 0
-	switch verifChoice(4) {
+	limitCase := verifChoice(5)
+	switch limitCase {
 	case 0:
 		s.MaxMessageBytes = 0
 	case 1:
@@ -52,8 +53,17 @@ func verif_C02_resume() {
 		s.MaxMessageBytes = int64(msgLen)
 	case 3:
 		s.MaxMessageBytes = int64(msgLen + 1)
+	case 4:
+		// the limit ANYWHERE inside the message - in particular at a line
+		// boundary in front of the arbitrary octets, where the octet that no
+		// longer fits is the dot of a stuffed line or of a look-alike (with a
+		// backend that reads everything and has no verdict of its own)
+		s.MaxMessageBytes = int64(nondetInt(1, msgLen-2))
 	}
 	readMode := verifChoice(4) // 0 all, 1 two octets, 2 nothing, 3 exactly k octets (k arbitrary, one octet per Read)
+	if limitCase == 4 {
+		assume(readMode == 0)
+	}
 	kstop := 0
 	if readMode == 3 {
 		lo := verifBound(msgLen-3, msgLen-7)
@@ -63,6 +73,9 @@ func verif_C02_resume() {
 		kstop = nondetInt(lo, msgLen)
 	}
 	retMode := verifChoice(3) // 0 nil, 1 SMTPError, 2 plain error
+	if limitCase == 4 {
+		assume(retMode == 0)
+	}
 	consume := func(r io.Reader) error {
 		var rerr error
 		switch readMode {
